@@ -302,3 +302,41 @@ Definition restart_ok (c : cfg) (l : list event) (o : robs) : bool :=
 
 Definition Mon_C03 (strict : bool) (c : cfg) (l : list event) (obs : list robs) : bool :=
   runchk c (mon3_ok strict c) (init_t c) l && forallb (restart_ok c l) obs.
+
+(* ---------- restart through the real services (pipeline / connector / processor / lifecycle) ---------- *)
+(* pipeline.Status as stored (iota + 1): 1 running, 2 system-stopped, 3 user-stopped, 4 degraded,
+   5 recovering.  pipeline.Service.Init turns a stored "running" into "system-stopped"; the lifecycle
+   service's Init starts exactly the pipelines it finds system-stopped. *)
+Definition pipeline_init (st : nat) : nat := if st =? 1 then 2 else st.
+Definition lifecycle_starts (st : nat) : bool := st =? 2.
+Definition resumes (stored : nat) : bool := lifecycle_starts (pipeline_init stored).
+
+(* what one source shows after the restart: was its plugin opened, with which decoded position, and
+   the record ids that then reached the destination (the restarted plugin replays the successors of
+   the position it was opened with, three of them) *)
+Record fsrc := mkFS { fs_s : conn; fs_opened : bool; fs_tag : nat; fs_pos : pos; fs_got : list pos }.
+Record fobs := mkFO { fo_at : nat; fo_stored : nat; fo_after_init : nat; fo_started : bool;
+                      fo_after_boot : nat; fo_srcs : list fsrc }.
+
+Definition fsrc_reopened_right (c : cfg) (l : list event) (at_ : nat) (f : fsrc) : bool :=
+  let x := src (state_after c (firstn at_ l)) (fs_s f) in
+  fs_opened f && (stag x =? fs_tag f) && (spos x =? fs_pos f) &&
+  list_eqb_nat (fs_got f) (seq (S (spos x)) 3).
+
+Definition fsrc_untouched (f : fsrc) : bool :=
+  negb (fs_opened f) && match fs_got f with [] => true | _ => false end.
+
+(* model: Init as above, every source of a started pipeline is opened at the stored position *)
+Definition full_acc (c : cfg) (l : list event) (o : fobs) : bool :=
+  (fo_after_init o =? pipeline_init (fo_stored o)) &&
+  Bool.eqb (fo_started o) (lifecycle_starts (fo_after_init o)) &&
+  (fo_after_boot o =? (if fo_started o then 1 else fo_after_init o)) &&
+  list_eqb_nat (map fs_s (fo_srcs o)) (upto (nsrc c)) &&
+  forallb (fun f => if fo_started o then fsrc_reopened_right c l (fo_at o) f else fsrc_untouched f) (fo_srcs o).
+
+(* property: a pipeline that was running (or system-stopped) when the process died is started again,
+   one the user stopped or that is degraded / recovering is not, and whatever is started re-reads from
+   exactly the stored position on *)
+Definition full_mon (c : cfg) (l : list event) (o : fobs) : bool :=
+  Bool.eqb (fo_started o) (resumes (fo_stored o)) &&
+  (negb (fo_started o) || forallb (fsrc_reopened_right c l (fo_at o)) (fo_srcs o)).
